@@ -77,6 +77,69 @@ def from_find_on(b, op, s_id):
     return False
 
 
+SUFFIX_FNS = ("std::str::<impl str>::trim_start", "std::str::<impl str>::trim_start_matches", "std::str::<impl str>::strip_prefix",
+              "std::str::<impl str>::trim_left", "std::str::<impl str>::trim_left_matches")
+PREFIX_FNS = ("std::str::<impl str>::trim_end", "std::str::<impl str>::trim_end_matches", "std::str::<impl str>::strip_suffix",
+              "std::str::<impl str>::trim_right", "std::str::<impl str>::trim_right_matches")
+SUB_FNS = ("std::str::<impl str>::trim", "std::str::<impl str>::trim_matches")
+
+
+def part_of(b, op, s_id):
+    """'suffix' / 'prefix' / 'sub' when every origin of the string `op` is a trim*/strip* of the string s_id (a contiguous part of it
+    that ends / starts where it does), else None"""
+    kinds = set()
+    lv = C.trace(b, op)
+    if not lv:
+        return None
+    for l in lv:
+        nm = C.callee_name(l.data) if l.kind == "call" else None
+        if nm in SUFFIX_FNS + PREFIX_FNS + SUB_FNS and same(ident(b, l.data["args"][0]), s_id):
+            kinds.add("suffix" if nm in SUFFIX_FNS else "prefix" if nm in PREFIX_FNS else "sub")
+        else:
+            return None
+    return kinds.pop() if len(kinds) == 1 else "sub"
+
+
+def len_minus_part(b, op, s_id, want):
+    """op == len(s) - len(t) with t a `want` ('suffix'/'prefix') part of s: the byte offset where t starts / the length s has left"""
+    for l in C.trace(b, op):
+        if l.kind == "binop" and l.data["op"].startswith("Sub"):
+            lo = len_of(b, l.data["a"])
+            if lo is None or not same(lo, s_id):
+                return False
+            for x in C.trace(b, l.data["b"]):
+                if not (x.kind == "call" and C.callee_name(x.data) in LEN_FNS and part_of(b, x.data["args"][0], s_id) == want):
+                    return False
+            return True
+    return False
+
+
+def find_plus_patlen(b, op, s_id):
+    """op == find(s, P) + k where P is a literal char / str whose UTF-8 length is k: the offset just behind the first P"""
+    for l in C.trace(b, op):
+        if not (l.kind == "binop" and l.data["op"].startswith("Add")):
+            return False
+        for x, y in ((l.data["a"], l.data["b"]), (l.data["b"], l.data["a"])):
+            kc = C.op_const(y)
+            m = re.match(r"(\d+)_usize$", kc or "")
+            if not m:
+                continue
+            for f in C.trace(b, x):
+                if f.kind == "call" and C.callee_name(f.data) == FIND and same(ident(b, f.data["args"][0]), s_id):
+                    pats = [C.op_const(q.data) for q in C.trace(b, f.data["args"][1]) if q.kind == "const"]
+                    if len(pats) == 1 and pats[0] is not None and _lit_utf8_len(pats[0]) == int(m.group(1)):
+                        return True
+        return False
+    return False
+
+
+def _lit_utf8_len(lit):
+    """byte length of a char / str literal as printed by the fact driver ('x' or "xyz"); None when it contains an escape"""
+    if len(lit) >= 2 and lit[0] == lit[-1] and lit[0] in "'\"" and "\\" not in lit:
+        return len(lit[1:-1].encode("utf-8"))
+    return None
+
+
 def starts_with_cut(b, prog, s_id, idx_op):
     """true edges of s.starts_with(p) where idx == len(p), or p == " ".repeat(n) with idx == n"""
     idx_len = len_of(b, idx_op)
@@ -203,6 +266,12 @@ def d_sub_guarded(ctx, s):
             if cut and C.guarded(b, s.bb, cut):
                 return "len(v) - 1 under a Some edge of last()/iteration over the same v (v is non-empty)"
         return None
+    # len(s) - len(t) where t is a trimmed / stripped part of s
+    lo = len_of(b, a_op)
+    if lo is not None:
+        lb = [x for x in C.trace(b, b_op)]
+        if lb and all(x.kind == "call" and C.callee_name(x.data) in LEN_FNS and part_of(b, x.data["args"][0], lo) for x in lb):
+            return "len(s) - len(part of s): a trimmed / stripped part is never longer than the string"
     # non-constant b: edge implying a >= b
     b_id = ident(b, b_op)
     cut = cmp_holds_edges(b, s.prog, "ge", lambda lv: same(frozenset(ident_leaves(b, lv)), a_id), lambda lv: same(frozenset(ident_leaves(b, lv)), b_id))
@@ -267,6 +336,16 @@ def d_str_index(ctx, s):
         if from_find_on(b, op, s_id):
             reasons.append("%s derives from find()/len() on the same string" % fld)
             continue
+        if len_minus_part(b, op, s_id, "suffix"):
+            reasons.append("%s = len(s) - len(suffix of s): the offset where the suffix starts" % fld)
+            continue
+        pl = [x for x in C.trace(b, op)]
+        if pl and all(x.kind == "call" and C.callee_name(x.data) in LEN_FNS and part_of(b, x.data["args"][0], s_id) == "prefix" for x in pl):
+            reasons.append("%s = len(prefix of s)" % fld)
+            continue
+        if find_plus_patlen(b, op, s_id):
+            reasons.append("%s = find(s, literal) + byte length of the literal" % fld)
+            continue
         cut = starts_with_cut(b, s.prog, s_id, op)
         if cut and C.guarded(b, s.bb, cut):
             reasons.append("%s = len(p) under starts_with(p)" % fld)
@@ -295,6 +374,53 @@ def d_str_index(ctx, s):
             return None
         reasons.append("end >= start edge")
     return "; ".join(reasons)
+
+
+def str_index_bounded_only(ctx, s):
+    """a str slice whose every endpoint n is known to be <= len(s) on the way to the site (the Some edge of `s.as_bytes().get(..n)` /
+    `s.get(..n)`), but whose char-boundary argument is a byte-level validation the rules do not model: no verdict"""
+    if not (s.kind == "call" and s.what == STR_INDEX):
+        return None
+    b, t = s.b, s.t
+    s_id = ident(b, t["args"][0])
+    kind, parts = range_parts(b, t["args"][1])
+    if kind is None:
+        return None
+    GETS = ("std::slice::<impl [T]>::get", "std::str::<impl str>::get")
+    for fld, op in parts.items():
+        if C.op_const(op) == "0_usize":
+            continue
+        n_id = ident(b, op)
+
+        def pred(cd, vs, leaf):
+            if cd.kind != "enum" or cd.adt not in ("std::option::Option", "std::ops::ControlFlow") or not (vs <= {"Some", "Continue"}):
+                return False
+            for l in cd.src:
+                if l.kind == "call" and C.callee_name(l.data) in GETS and same(ident(b, l.data["args"][0]), s_id):
+                    k2, p2 = range_parts(b, l.data["args"][1])
+                    if k2 in ("RangeTo", "RangeFrom") and all(same(ident(b, o), n_id) for o in p2.values()):
+                        return True
+            return False
+        cut = C.guard_edges(b, s.prog, pred)
+        if not (cut and C.guarded(b, s.bb, cut)):
+            return None
+    return "every endpoint is within the string (Some edge of get(..n) on its bytes); the char-boundary argument is not modelled"
+
+
+def d_char_boundary(ctx, s):
+    """s[..n] / s[n..] under the true edge of s.is_char_boundary(n) (false for n > len)"""
+    b, t = s.b, s.t
+    s_id = ident(b, t["args"][0])
+    kind, parts = range_parts(b, t["args"][1])
+    if kind not in ("RangeTo", "RangeFrom"):
+        return None
+    for fld, op in parts.items():
+        n_id = ident(b, op)
+        cut = bool_call_edges(b, s.prog, "std::str::<impl str>::is_char_boundary", True,
+                              arg_pred=lambda tt: same(ident(b, tt["args"][0]), s_id) and same(ident(b, tt["args"][1]), n_id))
+        if not (cut and C.guarded(b, s.bb, cut)):
+            return None
+    return "guarded by is_char_boundary on the same string and offset"
 
 
 def d_unwrap_guarded(ctx, s):
@@ -426,6 +552,8 @@ def e_assert_no_newline(ctx, s):
             if l.kind == "call" and l.callee() in (ROLE["get_next_line"], ROLE["next_line"], "<std::io::Lines<B> as std::iter::Iterator>::next"):
                 continue
             if l.kind == "const" and "\\n" not in (C.op_const(l.data) or ""):
+                continue
+            if is_empty_text(l):
                 continue
             return None
     return "every inject_tags argument is an item of BufRead::lines() (terminator-free) or a newline-free constant"
@@ -640,7 +768,7 @@ def discharge(ctx, s):
         if r:
             return "generic: " + r
     if s.kind == "call" and s.what == STR_INDEX:
-        r = d_str_index(ctx, s)
+        r = d_str_index(ctx, s) or d_char_boundary(ctx, s)
         if r:
             return "generic: " + r
     if s.kind == "call" and s.what == "std::str::<impl str>::split_at":
@@ -650,6 +778,21 @@ def discharge(ctx, s):
     if s.kind == "call" and s.what == VEC_INDEX:
         # v[..len(v)-1] style ranges: RangeTo{end} with end derived from len of the same vec
         kind, parts = range_parts(s.b, s.t["args"][1])
+        if kind == "RangeFrom" and C.op_const(parts["start"]) in ("0_usize", "1_usize"):
+            # v[1..] needs len(v) >= 1: under the Some edge of v.first() / v.last() (or v[0..]: always fine)
+            if C.op_const(parts["start"]) == "0_usize":
+                return "generic: v[0..] is always in range"
+            b = s.b
+            v_id = ident(b, s.t["args"][0])
+
+            def pred_some(cd, vs, leaf):
+                if cd.kind != "enum" or cd.adt != "std::option::Option" or vs != {"Some"}:
+                    return False
+                return any(l.kind == "call" and C.callee_name(l.data) in ("std::slice::<impl [T]>::first", "std::slice::<impl [T]>::last")
+                           and same(ident(b, l.data["args"][0]), v_id) for l in cd.src)
+            cut = C.guard_edges(b, s.prog, pred_some)
+            if cut and C.guarded(b, s.bb, cut):
+                return "generic: v[1..] under the Some edge of first()/last() on the same v (v is non-empty)"
         if kind == "RangeTo":
             v_id = ident(s.b, s.t["args"][0])
             for l in C.trace(s.b, parts["end"]):
@@ -693,6 +836,8 @@ def r18_1(ctx):
         why = discharge(ctx, s)
         if why:
             ctx.ok("|".join(site_key(s)), site=site, detail=why)
+        elif str_index_bounded_only(ctx, s):
+            ctx.unverified("|".join(site_key(s)), site=site, detail=str_index_bounded_only(ctx, s))
         else:
             ctx.violation(site_key(s), "panic-capable site not discharged: %s %s (%s) — no guard establishes its precondition and no reviewed "
                           "entry matches" % (s.kind, s.what, T.may_panic(s.what) or "MIR assert"), site=site,
